@@ -840,6 +840,14 @@ fn write_evidence_file(
     }
     let schedules: BTreeMap<String, usize> = agg.sets.iter().map(|(k, s)| (format!("distinct_{}", k), s.len())).collect();
     let processes = agg.counters.get("processes").copied().unwrap_or(0);
+    // observations compared with real code outside the simulator (real directory through the
+    // real OS; the shipped, unhooked binary)
+    let validated: u64 = agg
+        .counters
+        .iter()
+        .filter(|(k, _)| k.starts_with("traces_validated_against_"))
+        .map(|(_, v)| *v)
+        .sum();
     let ev = serde_json::json!({
         "property_id": check.id(),
         "tier": tier.name(),
@@ -856,6 +864,7 @@ fn write_evidence_file(
             "runs_per_hour": if wall > 0.0 { (agg.evaluations as f64 / wall * 3600.0) as u64 } else { 0 },
             "seeds": format!("VERIF_SEED={} -> run seeds mix(VERIF_SEED, property, 0..{})", seed, planned),
             "processes_simulated": processes,
+            "traces_validated_against_impl": validated,
             "fault_kinds_fired": faults,
             "probes": probes,
             "dont_care": dont_care,
